@@ -17,6 +17,7 @@
 #include <booster/system_error.h>
 #include <sys/socket.h>
 #include <unistd.h>
+#include <malloc.h>
 #include <fcntl.h>
 #include <atomic>
 #include <vector>
@@ -442,6 +443,9 @@ static void slow_seen_set(int h) { slow_seen=h; }
 int main(int argc,char **argv)
 {
 	if(argc<6) return 2;
+	// callables are identified in the trace by the low 30 bits of their address (TLC integers are 32 bit): keep every
+	// small allocation in ONE malloc arena, otherwise objects of different threads' arenas can share those bits
+	mallopt(M_ARENA_MAX,1);
 	int reactor=atoi(argv[1]),producers=atoi(argv[2]),nops=atoi(argv[3]),rounds=atoi(argv[4]);
 	std::string mode=argv[5];
 	char const *out=getenv("VERIF_OUT"); if(!out) return 2;
